@@ -102,6 +102,8 @@ class Transform(Unit):
             xt = internal_point(g, spec, sc)
             yt = g.vec(spec.m, kmax=8, jmax=1)
             x0 = g.point_any(spec.lb, spec.ub)
+            if k % 5 == 2:
+                x0 = [float(round(v)) for v in x0]
             y0 = g.vec(spec.m, kmax=8, jmax=1)
             dt = g.vec(len(xt), kmax=8, jmax=1)
             policy = g.rng.choice(["fresh", "memo", "memo", "refill"])
@@ -109,7 +111,7 @@ class Transform(Unit):
                           "fmt": g.rng.choice(["coo", "csr", "csc"]),
                           "explicit_zeros": g.rng.random() < 0.3 or policy == "refill",
                           "dup": g.rng.random() < 0.3 and policy != "refill",
-                          "policy": policy, "twice": g.rng.random() < 0.6, "omit": omit})
+                          "policy": policy, "twice": g.rng.random() < 0.6, "omit": omit, "x0_int": k % 5 == 2})
         return cases
 
     def impl(self, case):
@@ -134,7 +136,10 @@ class Transform(Unit):
             if spec.m > 0:
                 T.cons(x), T.cons_jac(x)
             tr.transform_sol(np.array(case["x0"]), np.array(case["y0"]))
-        (tx, ty) = tr.transform_sol(np.array(case["x0"]), np.array(case["y0"]))
+        x0a, y0a = np.array(case["x0"]), np.array(case["y0"])
+        if case.get("x0_int") and np.all(x0a == np.round(x0a)):
+            x0a = x0a.astype(int)          # a start given as integers is the same start
+        (tx, ty) = tr.transform_sol(x0a, y0a)
         (rx, ry, rd) = tr.restore_sol(x, y, np.array(case["d"]))
         return {"obj": float(T.obj(x)), "grad": fl(T.obj_grad(x)),
                 "cons": fl(T.cons(x)) if spec.m > 0 else [],
